@@ -46,6 +46,7 @@
 struct rule { long seq; int err; long short_n; int used; };
 
 static int g_active = 0;          /* tracking on */
+static unsigned char g_eof[4096];
 static int g_have_key = 0;
 static uint64_t g_key_state = 0;
 static uint64_t g_key_initial = 0;
@@ -228,7 +229,7 @@ static int do_open(int dirfd, const char *path, int flags, mode_t mode) {
     int fd = (int)raw(SYS_openat, dirfd, (long)path, flags, mode);
     int e = errno;
     if (fd >= 0 && fd < MAXFD) {
-        g_tracked[fd] = 1;
+        g_tracked[fd] = 1; g_eof[fd] = 0;
         strncpy(g_paths[fd], rel, sizeof g_paths[fd] - 1);
         g_paths[fd][sizeof g_paths[fd] - 1] = 0;
     }
@@ -269,9 +270,12 @@ ssize_t read(int fd, void *buf, size_t count) {
     struct rule *r = rule_at(seq);
     size_t n = count;
     int inj = 0;
+    if (g_eof[fd] && count > 0) { logev(seq, "read", fd, g_paths[fd], (long)count, 0, 0, 1); return 0; }
     if (r) {
         r->used = 1;
         if (r->err) { logev(seq, "read", fd, g_paths[fd], (long)count, -1, r->err, 1); errno = r->err; return -1; }
+        /* at=SEQ:zero on a read: the file ends here (it shrank after it was stat'ed); sticky for the fd */
+        if (r->short_n == 0 && count > 0) { g_eof[fd] = 1; logev(seq, "read", fd, g_paths[fd], (long)count, 0, 0, 1); return 0; }
         if (r->short_n >= 0 && (size_t)r->short_n < n && r->short_n > 0) { n = (size_t)r->short_n; inj = 1; }
     }
     if (g_rchunk > 0 && (size_t)g_rchunk < n) { n = (size_t)g_rchunk; inj = 1; }
